@@ -194,9 +194,9 @@ def a64_immediate(draw):
     if k < 7:
         v = draw(st.one_of(st.sampled_from([0, 1, 8, 16, 255, 4095, 65535, 111, 222, -1, -16, -256]),
                            st.integers(-2 ** 31, 2 ** 32)))
-        if draw(st.booleans()) or v < 0:
+        if draw(st.booleans()):
             return ["imm", v], hash_ + str(v)
-        return ["imm", v], hash_ + "0x%x" % v
+        return ["imm", v], hash_ + ("-" if v < 0 else "") + "0x%x" % abs(v)
     mant = draw(st.sampled_from(["1.5", "0.0", "2.0", "0.25", "31.0", "1.0"]))
     if draw(st.booleans()):
         return ["fimm", mant, None], "#" + mant
@@ -216,16 +216,17 @@ def a64_memory(draw):
         return ["mem", None, base, None, 1, False, None], "[%s%s%s]" % (w, btext, draw(WS))
     if mode in ("bo", "pre"):
         off = draw(st.one_of(st.sampled_from([0, 8, 16, -16, 255, 4088, -256]), st.integers(-4096, 32760)))
-        hexo = off >= 0 and draw(st.integers(0, 3)) == 0
-        otext = draw(st.sampled_from(["#", "#", ""])) + ("0x%x" % off if hexo else str(off))
+        hexo = draw(st.integers(0, 3)) == 0
+        otext = draw(st.sampled_from(["#", "#", ""])) + (("-" if off < 0 else "") + "0x%x" % abs(off) if hexo else str(off))
         t = "[%s%s%s,%s%s%s]" % (w, btext, draw(WS), draw(WS), otext, draw(WS))
         if mode == "pre":
             return ["mem", off, base, None, 1, True, None], t + "!"
         return ["mem", off, base, None, 1, False, None], t
     if mode == "post":
         off = draw(st.sampled_from([8, 16, 32, -16, 64, 1]))
-        hexo = off >= 0 and draw(st.integers(0, 3)) == 0
-        t = "[%s%s%s]%s,%s#%s" % (w, btext, draw(WS), draw(WS), draw(WS), ("0x%x" % off if hexo else str(off)))
+        hexo = draw(st.integers(0, 3)) == 0
+        t = "[%s%s%s]%s,%s#%s" % (w, btext, draw(WS), draw(WS), draw(WS),
+                                  (("-" if off < 0 else "") + "0x%x" % abs(off) if hexo else str(off)))
         return ["mem", None, base, None, 1, False, off], t
     ik = draw(st.sampled_from(["x", "x", "w"])) if mode != "bi" else "x"
     inn = str(draw(st.integers(0, 30)))
